@@ -317,8 +317,8 @@ type onode struct {
 	unreported       []*oblock         // executed, ReportState not yet called
 	lastDelivered    uint64            // within the current incarnation
 	startApplied     uint64
-	prevMaxDelivered uint64 // highest height handed to an earlier incarnation of this node
-	reported         map[uint64]bool
+	prevMaxDelivered uint64           // highest height handed to an earlier incarnation of this node
+	reported         map[uint64]int64 // height -> fake time at which ReportState was issued
 }
 
 func (n *onode) nonceOf(addr string) uint64 {
@@ -465,7 +465,7 @@ func (c *cluster) startNode(n *onode) error {
 		n.prevMaxDelivered = n.lastDelivered
 	}
 	if n.reported == nil {
-		n.reported = map[uint64]bool{}
+		n.reported = map[uint64]int64{}
 	}
 	n.lastDelivered = applied
 	n.delivered = nil
@@ -585,7 +585,8 @@ func (c *cluster) onDelivery(n *onode, ev *pb.CommitEvent) {
 			if prev, dup := c.txHeight[h]; dup && prev != b.height {
 				discr := ""
 				for _, x := range c.nodes {
-					if x.alive && !x.reported[prev] {
+					// the batch carries the (fake) time at which its leader generated it
+					if at, ok := x.reported[prev]; x.alive && (!ok || at >= b.ts) {
 						// known family: a (new) leader batches a transaction of a block that consensus has
 						// delivered but whose execution has not been reported to its pool yet
 						discr = "first-block-not-yet-reported-to-every-pool"
@@ -595,6 +596,19 @@ func (c *cluster) onDelivery(n *onode, ev *pb.CommitEvent) {
 					// known family (see C18/C19 stale-committed-nonce): a pool that did not hold the transaction when
 					// its block was committed accepts the late broadcast as new and, once leader, batches it again
 					discr = "broadcast-reached-a-pool-after-the-transaction-was-committed"
+				}
+				if discr == "" {
+					for _, x := range c.nodes {
+						at, ok := x.reported[prev]
+						for hh, at2 := range x.reported {
+							if ok && hh > prev && at2 <= at {
+								// known family: production reports executed blocks in bare goroutines; when the report of a
+								// later block overtakes it, the node drops the earlier one (its applied-index entry is
+								// already deleted) and its pool never learns that those transactions were committed
+								discr = "commit-notification-overtaken-by-a-later-one"
+							}
+						}
+					}
 				}
 				c.vio("tx-in-two-blocks", discr, "transaction %s is included in delivered blocks %d and %d", h[:10], prev, b.height)
 			}
@@ -651,7 +665,7 @@ func (c *cluster) reportStep(n *onode, pick int) {
 		hs = append(hs, types.NewHashByStr(h))
 	}
 	ord := n.ord
-	n.reported[b.height] = true
+	n.reported[b.height] = time.Now().UnixNano()
 	go ord.ReportState(b.height, &types.Hash{}, hs)
 }
 
